@@ -57,6 +57,11 @@ def ref_key(s):
         return (0, version.parse_version(s))
 
 
+CORPUS_WANT = {("vYYYY.JJJ.INC0", "v2024.364.0", "global"): "v2024.366.0",      # day 366 of a leap year exists
+               ("vYYYY.00J.INC0", "v2023.001.0", "default"): "v2023.365.0",     # day 365 of a common year exists
+               ("YYYY.0M.0D", "2020.02.01", "default"): "2020.03.01"}           # February 30th does not
+
+
 def expected_current(impl, pat, cfg_version, scope, tags_all, tags_branch):
     tags = tags_branch if scope == "branch" else tags_all
     valid = [t for t in tags if impl_valid(impl, t, pat)]
@@ -140,6 +145,8 @@ def run(rep, tier, seed, model_ok=True, effort=1):
                 rep.violation("`show` fails / crashes on this tag set", input=inp, **{"class": "show-crash"})
                 continue
             want = cfgv if ignore else expected_current(impl, pat, cfgv, scope, tags_all, tags_branch)
+            # corpus entries whose expectation does not go through the implementation's own notion of a valid tag
+            want = CORPUS_WANT.get((pat, cfgv, scope), want) if not ignore else want
             if cur != want and ref_key(cur) != ref_key(want):
                 rep.violation("current version is %r, the greatest matching tag in scope gives %r" % (cur, want), input=inp, **{"class": "wrong-current"})
             elif cur != want:
@@ -158,14 +165,16 @@ def run(rep, tier, seed, model_ok=True, effort=1):
                 for cli_scope in ("default", "global", "branch"):
                     if cli_scope == scope:
                         continue
-                    c4, o4, l4, e4 = prj.run(impl, ["update", "--dry", "--no-fetch", "--tag-scope", cli_scope] + flags)
-                    old4 = next((l.split("Old Version: ", 1)[1] for l in l4 if "Old Version: " in l), None)
-                    want4 = expected_current(impl, pat, cfgv, cli_scope, tags_all, tags_branch)
-                    rep.case(("cli-tag-scope", pat, cfgv, scope, cli_scope, tuple(tags_all), tuple(tags_branch)))
-                    rep.count("cli-tag-scope")
-                    if old4 is not None and ref_key(old4) != ref_key(want4):
-                        rep.violation("with --tag-scope %s the update starts from %r, the greatest matching tag in that scope gives %r" % (cli_scope, old4, want4),
-                                      input=dict(inp, cli_scope=cli_scope), **{"class": "cli-scope-ignored"})
+                    # (the scope decides where the update starts from, whether or not a commit is going to be made)
+                    for no_commit in ([], ["--no-commit"]):
+                        c4, o4, l4, e4 = prj.run(impl, ["update", "--dry", "--no-fetch", "--tag-scope", cli_scope] + no_commit + flags)
+                        old4 = next((l.split("Old Version: ", 1)[1] for l in l4 if "Old Version: " in l), None)
+                        want4 = expected_current(impl, pat, cfgv, cli_scope, tags_all, tags_branch)
+                        rep.case(("cli-tag-scope", pat, cfgv, scope, cli_scope, tuple(tags_all), tuple(tags_branch), tuple(no_commit)))
+                        rep.count("cli-tag-scope")
+                        if old4 is not None and ref_key(old4) != ref_key(want4):
+                            rep.violation("with --tag-scope %s %sthe update starts from %r, the greatest matching tag in that scope gives %r" % (cli_scope, "".join(x + " " for x in no_commit), old4, want4),
+                                          input=dict(inp, cli_scope=cli_scope, extra=no_commit), **{"class": "cli-scope-ignored"})
             newl = next((l.split("New Version: ", 1)[1] for l in logs2 if "New Version: " in l), None)
             if code2 == 0:
                 if oldl != cur:
@@ -190,6 +199,25 @@ def run(rep, tier, seed, model_ok=True, effort=1):
                     if c3 == 0:
                         rep.violation("--set-version %r accepted although that version already exists as a tag" % x, input=dict(inp, args=["--set-version", x] + extra), **{"class": "set-version-equals-tag"})
             rep.sample(dict(pattern=pat, config=cfgv, scope=scope, tags=tags_all[:6], current=cur))
+    # real git: a branch carrying the name of a version tag (a release branch `1.3.0` next to the tag `1.3.0`) hides nothing
+    for scope in ("default", "global", "branch"):
+        prj = project.TempProject("MAJOR.MINOR.PATCH", "1.2.0", files={"a.txt": ["ver = {version}"]}, commit=True, tag=True, push=False, tag_scope=scope, vcs="git")
+        with prj:
+            prj.git("tag", "1.2.0")
+            open(prj.path("note.txt"), "w").write("x\n"); prj.git("add", "-A"); prj.git("commit", "-q", "-m", "work")
+            prj.git("tag", "1.3.0")
+            prj.git("branch", "1.3.0")
+            code, out, logs, exc = prj.run(impl, ["show", "--no-fetch"])
+            cur = next((l.split("Current Version: ", 1)[1].strip() for l in out.splitlines() if l.startswith("Current Version: ")), None)
+            code2, out2, logs2, exc2 = prj.run(impl, ["update", "--dry", "--no-fetch", "--minor"])
+            newl = next((l.split("New Version: ", 1)[1].strip() for l in logs2 if "New Version: " in l), None)
+        rep.case(("branch-named-like-tag", scope), nontrivial=True)
+        rep.count("real-git-runs")
+        inp = dict(version_pattern="MAJOR.MINOR.PATCH", config_version="1.2.0", scope=scope, tags=["1.3.0", "1.2.0"], branches=["main", "1.3.0"], show_exit=code, current=cur, update_exit=code2, new=newl)
+        if code != 0 or cur != "1.3.0":
+            rep.violation("current version is %r, the greatest matching tag gives '1.3.0' (a branch has the same name as that tag)" % cur, input=inp, **{"class": "wrong-current"})
+        elif code2 == 0 and newl in ("1.3.0", "1.2.0"):
+            rep.violation("the new version %r equals an existing tag" % newl, input=inp, **{"class": "new-equals-tag"})
     # a remote is configured and the fetch FAILS (remote unreachable): whatever bumpver does then, it never reports or starts from the stale
     # config value as if the repository had no tags
     for pat, cfgv, tags in (("MAJOR.MINOR.PATCH", "1.0.3", ["1.0.5", "1.0.4", "1.0.3"]), ("vYYYY0M.BUILD[-TAG]", "v202401.1001", ["v202403.1004-beta", "v202401.1001"]),
